@@ -51,6 +51,10 @@ impl img::DiskImage for D13 {
         trace!("read {}",addr);
         match addr {
             Block::D13([t,s]) => {
+                if t>=self.tracks as usize || s>12 {
+                    error!("track {} sector {} is outside the image",t,s);
+                    return Err(Box::new(img::Error::SectorAccess));
+                }
                 let offset = t*TRACK_SIZE + s*SECTOR_SIZE;
                 Ok(self.data[offset..offset+SECTOR_SIZE].to_vec())
             },
@@ -61,6 +65,10 @@ impl img::DiskImage for D13 {
         trace!("write {}",addr);
         match addr {
             Block::D13([t,s]) => {
+                if t>=self.tracks as usize || s>12 {
+                    error!("track {} sector {} is outside the image",t,s);
+                    return Err(Box::new(img::Error::SectorAccess));
+                }
                 let offset = t*TRACK_SIZE + s*SECTOR_SIZE;
                 let padded = super::quantize_block(dat, SECTOR_SIZE);
                 self.data[offset..offset+SECTOR_SIZE].copy_from_slice(&padded);
